@@ -9,6 +9,7 @@ type propCfg struct {
 	ThoroughRuns     int
 	ThoroughBudgetS  int
 	OnePerProcess    bool
+	Extra            string // a second harness that also serves this property (gets a quarter of the workers)
 	Enumerate        bool // exhaustive walk of the decision tree instead of seeded sampling
 	EnumWorkers      int
 	WatchdogSlackS   int
@@ -78,7 +79,7 @@ var props = map[string]*propCfg{
 		}, commonAssumptions...),
 	},
 	"C07": {
-		Harness: "hrn", Level: "exploration",
+		Harness: "hrn", Extra: "henv", Level: "exploration",
 		QuickRuns: 3000, QuickBudgetS: 90, ThoroughRuns: 300000, ThoroughBudgetS: 1200,
 		WatchdogSlackS: 120, DetSeedsQuick: 20, DetSeedsThorough: 200,
 		Rule: "one run = 1-4 cores (own ConsulSource each) with 1-3 concurrent callers doing 1-4 NewRunNumber calls each on one simulated Consul (counter absent / 41 / 500000), 0-2 foreign writers that atomically raise or rewrite the counter, per-request faults (500, connection error, response lost after apply, slow) at 0/5/20 %, a core dying at a drawn request before or after it was applied and being restarted; every KV request is two scheduling points; non-trivial = at least two successful calls; distinct = distinct (scenario, interleaving)",
@@ -89,5 +90,41 @@ var props = map[string]*propCfg{
 			"consistent reads are linearizable and cas is atomic in the simulated Consul, as documented for Consul",
 			"linearizability is decided by porcupine against a fetch-and-increase register (gaps allowed); Unknown (timeout) is counted, never reported",
 		}, commonAssumptions...),
+	},
+	"C01": {
+		Harness: "henv", Level: "exploration",
+		QuickRuns: 4000, QuickBudgetS: 100, ThoroughRuns: 300000, ThoroughBudgetS: 1500,
+		WatchdogSlackS: 240, DetSeedsQuick: 6, DetSeedsThorough: 60,
+		Rule: "one run = 1-3 concurrent clients issuing 3-12 requests (mostly the next legal event, 25% any event) on one real Environment, injected task-transition outcomes (fail 1/6, delays 0/20 ms/3 s), probe hooks at every moment plus 0-8 drawn hooks (weights -200..200, await same/later/never, critical, failing, delays); oracles: mutual exclusion of transition brackets, reference FSM over the serialisation order, illegal requests execute nothing, only documented states visible, every request returns; non-trivial = more than one request; distinct = distinct (scenario, interleaving)",
+		Real: []string{"core/environment.Environment: FSM callbacks, TryTransition, handleHooks, hook weights/await bookkeeping, run number and timestamp handling", "core/workflow call roles, callable.Call (Start/Await/Cancel, template execution of the call)", "core/integration plugin registry", "looplab/fsm (instrumented copy)", "apricot NewRunNumber over the real Consul client"},
+		Stub: []string{"task transition body (injected Transition, verif hook)", "integration plugin: probe plugin registered through the public RegisterPlugin API", "Consul: simconsul", "event writers: capturing writers (verif hook)", "callers follow the API rule (GO_ERROR after a failed request, forced ERROR if refused) as core/server.go does"},
+		Assumptions: append([]string{"teardown and the API-level paths (ControlEnvironment, DestroyEnvironment) are exercised by the whole-core harness, not here", "hook tasks are not generated here (calls only)"}, commonAssumptions...),
+	},
+	"C08": {
+		Harness: "henv", Level: "exploration",
+		QuickRuns: 4000, QuickBudgetS: 100, ThoroughRuns: 300000, ThoroughBudgetS: 1500,
+		WatchdogSlackS: 240, DetSeedsQuick: 6, DetSeedsThorough: 60,
+		Rule: "same workload as C01; oracles: hook starts matched one-to-one with trigger points of the reference, never before the trigger moment, ascending weights, awaited calls returned before anything later starts, equal-weight hooks started together (probes of one trigger expression block until all have started), calls pending at the end = calls whose await point was not reached; non-trivial = more than one request; distinct = distinct (scenario, interleaving)",
+		Real: []string{"core/environment.Environment: FSM callbacks, TryTransition, handleHooks, hook weights/await bookkeeping, run number and timestamp handling", "core/workflow call roles, callable.Call (Start/Await/Cancel, template execution of the call)", "core/integration plugin registry", "looplab/fsm (instrumented copy)", "apricot NewRunNumber over the real Consul client"},
+		Stub: []string{"task transition body (injected Transition, verif hook)", "integration plugin: probe plugin registered through the public RegisterPlugin API", "Consul: simconsul", "event writers: capturing writers (verif hook)", "callers follow the API rule (GO_ERROR after a failed request, forced ERROR if refused) as core/server.go does"},
+		Assumptions: append([]string{"teardown and the API-level paths (ControlEnvironment, DestroyEnvironment) are exercised by the whole-core harness, not here", "hook tasks are not generated here (calls only)"}, commonAssumptions...),
+	},
+	"C09": {
+		Harness: "henv", Level: "exploration",
+		QuickRuns: 4000, QuickBudgetS: 100, ThoroughRuns: 300000, ThoroughBudgetS: 1500,
+		WatchdogSlackS: 240, DetSeedsQuick: 6, DetSeedsThorough: 60,
+		Rule: "same workload as C01 with failing hooks (critical or not, several at once); oracles: outcome and resulting state of each transition against the reference (before_/leave_ critical failure cancels, enter_/after_ reports only), no hook or task transition after a cancelling failure, error names the failure, no concurrent map write (R4 write windows), no hang; non-trivial = more than one request; distinct = distinct (scenario, interleaving)",
+		Real: []string{"core/environment.Environment: FSM callbacks, TryTransition, handleHooks, hook weights/await bookkeeping, run number and timestamp handling", "core/workflow call roles, callable.Call (Start/Await/Cancel, template execution of the call)", "core/integration plugin registry", "looplab/fsm (instrumented copy)", "apricot NewRunNumber over the real Consul client"},
+		Stub: []string{"task transition body (injected Transition, verif hook)", "integration plugin: probe plugin registered through the public RegisterPlugin API", "Consul: simconsul", "event writers: capturing writers (verif hook)", "callers follow the API rule (GO_ERROR after a failed request, forced ERROR if refused) as core/server.go does"},
+		Assumptions: append([]string{"teardown and the API-level paths (ControlEnvironment, DestroyEnvironment) are exercised by the whole-core harness, not here", "hook tasks are not generated here (calls only)"}, commonAssumptions...),
+	},
+	"C10": {
+		Harness: "henv", Level: "exploration",
+		QuickRuns: 4000, QuickBudgetS: 100, ThoroughRuns: 300000, ThoroughBudgetS: 1500,
+		WatchdogSlackS: 240, DetSeedsQuick: 6, DetSeedsThorough: 60,
+		Rule: "same workload as C01; probes snapshot run_number and the four run timestamps from their variable stack; oracles: run number absent at negative-weight before_START_ACTIVITY, present and constant until the end of the STOP_ACTIVITY / GO_ERROR transition, timestamps set at most once and ordered, previous run's timestamps not visible at the start of the next, end timestamps set however the run ended, number gone after the run; non-trivial = more than one request; distinct = distinct (scenario, interleaving)",
+		Real: []string{"core/environment.Environment: FSM callbacks, TryTransition, handleHooks, hook weights/await bookkeeping, run number and timestamp handling", "core/workflow call roles, callable.Call (Start/Await/Cancel, template execution of the call)", "core/integration plugin registry", "looplab/fsm (instrumented copy)", "apricot NewRunNumber over the real Consul client"},
+		Stub: []string{"task transition body (injected Transition, verif hook)", "integration plugin: probe plugin registered through the public RegisterPlugin API", "Consul: simconsul", "event writers: capturing writers (verif hook)", "callers follow the API rule (GO_ERROR after a failed request, forced ERROR if refused) as core/server.go does"},
+		Assumptions: append([]string{"teardown and the API-level paths (ControlEnvironment, DestroyEnvironment) are exercised by the whole-core harness, not here", "hook tasks are not generated here (calls only)"}, commonAssumptions...),
 	},
 }
